@@ -22,6 +22,7 @@ META = {
     "trusted_base": ["what the trackers compute (C10, C12)", "imputers honour C06", "deterministic model and loss"],
     "assumptions": [],
 }
+META["explanation"] += ' HAZARD: constructs that do not mean what they look like, met in the analysed code (defaults evaluated once, class-level containers changed through self, dict.fromkeys with a shared mutable value, late-binding lambdas, truth value of objects that define __len__) are reported by every check.'
 MIN_INSTANCES = {"FORMULA": 3, "ORDER": 1, "COUNT": 3, "SAME": 2}
 CLS = "IncrementalPFI"
 
